@@ -61,6 +61,22 @@ CLAIMED["C04"] = dict(
   technique="inductive-step symbolic execution of go/ssa with SMT (z3/cvc5); function stubs replayed natively through source-overlay hooks",
   ref="4-C04")
 
+CLAIMED["C08"] = dict(
+  text="Bounded symbolic verification (SMT over go/ssa). The login decision of Description.GetPermission (password branch, real getPasswordPermission / Password.Match / ConstantTimeCompare / subtle.ConstantTimeCompare / validUsername) is checked against the property's own table for a users map with a symbolic named entry and an optional wildcard user, symbolic credentials over all byte values: accepted iff the entry exists and matches or (no entry) the wildcard matches; entry shadows wildcard; empty, key-less and unknown password kinds never match; refusals grant nothing; rights are the matched entry's. Role expansion for all six roles x both group flags as sets; ConstantTimeCompare <=> equality; and the aliasing obligation through the REAL changePermissionsAction handler of rtpconn (a later login still gets the configured rights).",
+  note="Bounds: names 1..1 (thorough 2) bytes, passwords/keys 0..1 (2) bytes, 5 non-hashed password kinds; plain compare strings 0..3 (5) bytes. NOT encoded: pbkdf2/bcrypt themselves and galenectl's makePassword round trip (library hashes: a stub would restate their contract), JSON decoding of descriptions. Trusted: go/ssa, gosmt, z3/cvc5.",
+  technique="bounded symbolic execution of go/ssa with SMT (decision table over symbolic strings; cross-package aliasing obligation), counterexamples replayed natively",
+  ref="4-C08")
+CLAIMED["C10"] = dict(
+  text="Bounded symbolic verification (SMT over go/ssa) as INDUCTIVE steps of the real group.AddClient and DelClient (with autoLockKick, getClientsUnlocked) from an arbitrary group state: every combination of locked / autolock / autokick / max-clients / not-before / expires, 0..2 (thorough 3) existing members with arbitrary rights, three credential outcomes, fresh / duplicate / empty id. Asserted: the admission rules with operators exempt, duplicate ids refused, a rejected client is not a member and nobody is told, autolock re-engaged on return of DelClient when no operator remains; LOCKSET obligations: membership / lock / description are only touched with g.mu held and AddClient's decision and insertion lie in ONE critical section (which is what 'however joins and leaves interleave' rests on, assuming sync.Mutex works).",
+  note="Bounds as stated; group.Add and Description.GetPermission are function-level stubs (models; natively intercepted by source-overlay hooks for replay); time.Now symbolic with limits 1 h away; the autokick kick loop (a go statement) is not executed. The schedules quantifier is decided through mutex discipline on symbolic paths, not by running goroutines. Trusted: go/ssa, gosmt (incl. its mutex model), z3/cvc5.",
+  technique="inductive-step symbolic execution of go/ssa with SMT + lockset / single-critical-section obligations on symbolic paths",
+  ref="4-C10")
+CLAIMED["C14"] = dict(
+  text="Bounded symbolic verification (SMT over go/ssa), inductive steps of the real group.AddClient / DelClient from an arbitrary group state with recording fake clients: after a successful join the newcomer is told 'join', about itself and about every member exactly once with true usernames and permissions, every member is told about the newcomer exactly once and nothing else; after a leave every remaining member is told 'delete' exactly once; a refused join tells nobody anything; deleting a non-member changes nothing. Exactly-once per step + arbitrary pre-state gives convergence of each member's list for join/leave histories of any length.",
+  note="Bounds: 0..2 (thorough 3) members. NOT encoded: rtpconn's pushClientAction group-name filter, the permission/data change broadcasts (permissionsChangedAction, setdata) and the order in which queued actions are drained (the schedules part of the property) - these need the rtpconn client loop with its websocket writer. Trusted: go/ssa, gosmt, z3/cvc5, the Add/GetPermission models.",
+  technique="inductive-step symbolic execution of go/ssa with SMT, ghost event logs in fake clients",
+  ref="4-C14")
+
 NOT_APPLICABLE = {
 }
 
